@@ -12,7 +12,8 @@ META = {
         "laws are then checked cell-wise. R1 antisymmetry of constant cells, const/computed pairing, diagonal, and acyclicity of the "
         "kind-level tournament; R2 symmetry of the constant-false cells of eq and coherence with compare (a pair eq declares unequal must "
         "never compare Equal); R3 hashing: kinds that can be equal write the same tag and normal form, and the float arm normalises every "
-        "class eq identifies; R4 one-sided truncating casts in mirrored computed cells; R5 the same laws for Item and Attr."),
+        "class eq identifies; R4 one-sided truncating casts in mirrored computed cells; R5 the same laws for Item and Attr. R8 Text defines ==, the order and the hash through its string view alone."
+),
     "does_not_decide": "value-level transitivity inside computed cells (needs arithmetic reasoning); the f64::EPSILON tolerance is reported as a known finding, not decided in general",
 }
 
